@@ -51,6 +51,10 @@ func (g *mgen) mixinBody(d mdef, idx int, depth int) []interface{} {
 	if r.Chance(1, 3) {
 		out = append(out, nText("loc="), nBuf(eId("callerLocal"), true)) // a caller local is NOT visible: prints nothing
 	}
+	if r.Chance(1, 3) {
+		// the call's attributes: `attributes.class` is the call's own list (or nothing when the call gave no class)
+		out = append(out, nText("at="), nBuf(eDot(eId("attributes"), "class"), true))
+	}
 	placeBlock := func() {
 		switch r.Intn(4) {
 		case 0:
@@ -161,7 +165,20 @@ func (g *mgen) call(depth int) []interface{} {
 		}
 		inner = append(inner, nText(")"))
 	}
-	return []interface{}{nCall(d.name, args, nil, inner...)}
+	var attrs []interface{}
+	if r.Chance(1, 4) {
+		// attributes on the call; a repeated name whose FIRST value is an array that lives on after the call (page data `xs`):
+		// every call sees the array plus its own extra value, and the array itself stays what the data says
+		switch r.Intn(3) {
+		case 0:
+			attrs = []interface{}{nAttr("class", eId("xs"), true), nAttr("class", g.callerExpr(), true)}
+		case 1:
+			attrs = []interface{}{nAttr("class", eStr("one"), true), nAttr("title", g.callerExpr(), true)}
+		default:
+			attrs = []interface{}{nAttr("class", eId("xs"), true), nAttr("class", eStr("k"), true), nAttr("class", eId("ps"), true)}
+		}
+	}
+	return []interface{}{nCall(d.name, args, attrs, inner...)}
 }
 
 func genC03(r *Rng, n int, tier string, emit func(Case)) {
@@ -223,7 +240,7 @@ func genC03(r *Rng, n int, tier string, emit func(Case)) {
 		if !defsFirst {
 			doc = append(doc, defNodes...)
 		}
-		doc = append(doc, nText("end"))
+		doc = append(doc, nText("end"), nBuf(eCall(eDot(eId("xs"), "join"), eStr("+")), true))
 		data := J{"pn": rr.Range(1, 9), "ps": []string{"page", "<pg>"}[rr.Intn(2)], "xs": []interface{}{"e1", "e2", "e3"}[:rr.Range(0, 3)], "yes": true}
 		if prevDoc != nil && rr.Chance(1, 4) {
 			// the previous program (same mixin names, other bodies) lives next to this one in the same directory, under names
